@@ -138,11 +138,14 @@ static int ult_load(struct module_data *m, HIO_HANDLE *f, const int start)
 
     LOAD_INIT();
 
+    memset(&ufh, 0, sizeof(ufh));
     hio_read(ufh.magic, 15, 1, f);
     hio_read(ufh.name, 32, 1, f);
     ufh.msgsize = hio_read8(f);
 
     ver = ufh.magic[14] - '0';
+    if (ver < 1 || ver > 4)	/* index of verstr; the reads above may have failed */
+	return -1;
 
     strncpy(mod->name, (char *)ufh.name, 32);
     mod->name[32] = '\0';
